@@ -150,6 +150,7 @@ int hx_spec_from_kind(const char *kind, hx_rng *r, hx_spec *sp);
 /* list of kind names usable on every variant */
 extern const char *const hx_kinds[];
 extern const int hx_nkinds;
+extern long hx_force_len;
 
 /* run `sp` alone on the oracle manager for variant v; fills out (caller frees). returns status */
 int hx_run_alone(const hx_variant *v, const hx_spec *sp, hx_job *out);
